@@ -19,7 +19,7 @@ import (
 )
 
 const rule = "case = a registration program: a tree of Group(path, handlers, body) nested up to 3 deep (empty, static and dynamic group paths, 0..2 group handlers), containing Get..Trace, Route, Any, Routes (comma list with blanks and lower case / several method strings), Combo (common handlers + 1..4 methods) and AutoHead(on/off) toggles anywhere; handler lists are passed as fresh variadics or as sub-slices with spare capacity. Route paths are distinct by construction (except that a second Combo call may declare further methods of the same route); a group with a static path of its own may also declare its own route with the empty path. " +
-	"Oracle: an own flatten(program) = list of (method, full path, handler ids, outer group first). Flame P is built from the program, Flame Q from the flat list with Route(method, path, handlers); for every registered path x all nine methods the handler-id trace and the parameters of P must equal those of Q and flatten's expectation. Also: Combo with a repeated method must panic. " +
+	"Oracle: an own flatten(program) = list of (method, full path, handler ids, outer group first). Flame P is built from the program, Flame Q from the flat list with Route(method, path, handlers); for every registered path x all nine methods and two unknown ones the handler-id trace and the parameters of P must equal those of Q and flatten's expectation. Also: Combo with a repeated method must panic. " +
 	"non-trivial = a program with nesting depth >= 2, or a Combo with >= 2 methods, or an AutoHead toggle between two GET routes, or sibling routes inside a nested group with group handlers; distinct by case text"
 
 var assumptions = []string{
@@ -330,7 +330,10 @@ func checkCase(c Case) (out evid.Outcome) {
 	}
 	for _, path := range order {
 		for _, inst := range probes(path) {
-			for _, m := range model.Methods {
+			// the nine methods routes can be declared for, and two that no route
+			// can be declared for (every declaration form must leave them to the
+			// not-found chain, as the flat registrations do)
+			for _, m := range append(append([]string{}, model.Methods...), "PROPFIND", "get") {
 				out.Sub++
 				pt, pp, pnf := p.serve(m, inst)
 				qt, qp, qnf := q.serve(m, inst)
